@@ -15,6 +15,21 @@ CHECKS = {
  "C03": ("stateful property-based testing: unrestricted generated histories with an 8-clause structural invariant over the raw Memfs dump after every step",
          "Histories with wild arguments (through links, root, empty, long '..' chains, huge names, nested src/dst, all builder options, failing calls) and after every step the raw indexes must form a well-formed tree and agree with the public API view.",
          "hook H2 dump is faithful; invariant list in harness/src/fsapply.rs::integrity", "4 C03"),
+ "C04": ("controlled-scheduler schedule enumeration (generated programs x all interleavings at lock-section granularity) with a linearizability oracle; plus uncontrolled stress",
+         "Real threads are serialised at every MemfsGuard acquisition (hook H1); for each small program every interleaving is enumerated depth-first and each execution's results and final tree must equal some program-order and real-time respecting sequential execution; nested acquisition, panics, non-returning calls, lost appends and integrity at quiescence are checked on every execution.",
+         "hook H1 reports every guard acquisition; all shared Memfs state is behind that lock; sequential specification = Memfs single-threaded", "4 C04"),
+ "C06": ("model-based testing: proptest-generated file-operation histories on both backends vs a byte-vector model, every file read back after every step",
+         "Histories over six files in two directories (write/append/line helpers/handles/copy/move/remove, adversarial byte data up to 16 KiB) on Memfs and on a tmpfs Stdfs sandbox; after every step every path is read three ways (and via std::fs::read on disk) and compared with the model.",
+         "byte-vector model in harness/src/props/c06.rs; std::fs as independent observer; admitted set for empty-line helpers", "4 C06"),
+ "C07": ("differential property-based testing: generated read/seek scripts vs std::io::Cursor in lock step; generated chunk/flush/drop schedules with read-back",
+         "Read handles from both backends are driven by generated scripts (extreme offsets included) in lock step with std::io::Cursor: same result and same position after every call; write/append handles with arbitrary chunking, flush points and drop point must make exactly the bytes written so far visible at each flush and at drop.",
+         "std::io::Cursor as reference; kernel limits on file offsets (>2^62 excluded on Stdfs)", "4 C07"),
+ "C12": ("bounded-exhaustive adversarial argument enumeration + seeded random arguments for every public function, with a catch_unwind / CPU-watchdog / post-call usability oracle",
+         "Every call form of the Memfs API on every string over a 19-symbol adversarial alphabet up to length 2/3 from fresh and populated instances (pairs for two-path calls), random long / deep / huge arguments, every public helper and extension function, read-handle seek scripts: no panic, returns within a CPU budget, C03 invariants and a probe sequence succeed afterwards.",
+         "10-20 s thread-CPU budget stands for 'bounded time'; non-UTF-8 paths out of domain", "4 C12"),
+ "C13": ("differential testing: the same generated histories and a full method x path matrix executed directly, through Vfs::Memfs and through upcast(); per-accessor comparison inner entry vs VfsEntry",
+         "A matrix of every call form x every path (pairs for two-path calls) of a mixed scenario plus random histories are executed on a plain Memfs, through Vfs::Memfs and through Memfs::upcast() (also upcast at the end of the history): results, dump-derived trees and every Entry accessor / follow sequence must agree.",
+         "failing multi-entry calls are compared by Err-ness only (per-instance hash order); Stdfs vs Vfs::Stdfs is covered by C02's harness", "4 C13"),
  "C14": ("bounded-exhaustive enumeration + seeded random strings (proptest) vs an independent port of Go path.Clean",
          "Every string over {/ . a b} up to length 9/11 is compared with a reference port of Go's path.Clean, plus idempotence/absoluteness/non-emptiness; random adversarial strings beyond. Exhaustive inside the bound, sampled outside; no proof.",
          "ref_clean (harness/src/refpath.rs, unit-tested against Go's cleantests table), rustc/std", "4 C14"),
